@@ -12,6 +12,7 @@ def run(ctx, idx):
     ctx.rule("C16.a", "Every value of the EEMS 2.0 name table names a command class that exists in both built-in library sets (table agreement, exact).")
     ctx.rule("C16.b", "convert_eems2_commands builds each new node with name table.get(old, old), result name = first present of {own result name, NewFieldName, InFieldName}, the old arguments minus exactly {NewFieldName, OutFileName} in order, and the old line.")
     ctx.rule("C16.c", "from_source converts when the parser reported version 2 or any command name is a table key; the parser's version flag is set exactly in the result-less command production.")
+    conversion_keeps_every_command(ctx, idx, "C16.b", "the converted program lacks a command the EEMS 2.0 file has - its result is never defined, or a later command of that name is taken for it")
     utils = idx.module_of("mpilot.utils")
     if "EEMS_COMMANDS" not in utils.consts:
         raise AnalysisError("EEMS_COMMANDS vanished from mpilot/utils.py")
@@ -637,6 +638,42 @@ def _reset_by_every_reusing_caller(idx, pcls, attr):
             return False
         found = True
     return found
+
+
+def conversion_keeps_every_command(ctx, idx, rule, consequence):
+    """In convert_eems2_commands every iteration over the old commands that ends normally has appended one converted node
+    (no `continue` / branch that skips the append): the converted file has exactly the commands of the old one."""
+    fi = idx.func("mpilot.utils", "convert_eems2_commands")
+    if fi is None:
+        raise AnalysisError("%s: convert_eems2_commands vanished" % rule)
+    cfg = K.cfg_of(idx, fi)
+    param = fi.node.args.args[0].arg
+    heads = [h for h in cfg.find("iter") if not h.meta.get("comp") and isinstance(h.meta["iter"], ast.Name) and h.meta["iter"].id == param]
+    con = "%s::one-node-per-command" % fi.key
+    if not heads:
+        comps = [n for n in own_nodes(fi.node) if isinstance(n, (ast.ListComp, ast.GeneratorExp)) and isinstance(n.generators[0].iter, ast.Name) and n.generators[0].iter.id == param]
+        if comps and not comps[0].generators[0].ifs:
+            ctx.hold(rule, con, K.rel(fi), comps[0].lineno, "an unfiltered comprehension over the old commands")
+            return
+        if comps:
+            ctx.violate(rule, con, K.rel(fi), comps[0].lineno, "the old commands are filtered (`%s`) before they are converted: %s" % (K.src(comps[0].generators[0].ifs[0])[:60], consequence))
+            return
+        raise AnalysisError("%s: the loop over the old commands was not found in convert_eems2_commands" % rule)
+    h = heads[0]
+    firsts = [m for m, lab in h.succ if lab == "loop"]
+    appends = {n for n in cfg.find("call") if isinstance(n.ast.func, ast.Attribute) and n.ast.func.attr in ("append", "add", "insert") and n in cfg.reachable(firsts, avoid={h})}
+    yields = {n for n in cfg.nodes if n.kind in ("yield",) and n in cfg.reachable(firsts, avoid={h})}
+    marks = appends | yields
+    ok = bool(marks) and all(cfg.must_pass_through(b, h, marks) for b in firsts)
+    skip = None
+    if not ok:
+        for t in cfg.find("test"):
+            if t in cfg.reachable(firsts, avoid={h}):
+                for m, lab in t.succ:
+                    if not cfg.must_pass_through(m, h, marks) and h in cfg.reachable(m):
+                        skip = t
+    ctx.ob(rule, con, K.rel(fi), (skip or h).line, ok, "every old command that does not fail the conversion yields one converted command" if ok else
+           "an old command can pass through the conversion loop without a converted node being added (under `%s`): %s" % (K.src(skip.ast)[:80] if skip is not None else "some path", consequence))
 
 
 def parser_state(ctx, idx, rule):
